@@ -11,10 +11,12 @@ equal hashes.
 from __future__ import annotations
 
 import itertools
+import subprocess
 import operator
 from decimal import Decimal
 from fractions import Fraction
 
+from .. import env
 from ..monitors import pref as mpref
 
 LEVEL = "exploration"
@@ -166,6 +168,58 @@ def used_before(rec, a, light=False):
         judge_pair(rec, r, fresh, full=True, derived=False, case=case)
 
 
+def argument_probes(rec):
+    """Mis-given arguments must not silently change a value by a power of ten; comparisons of finite numbers return, whatever the exponent."""
+    from hdl21.prefix import Prefixed, Prefix, e as _e
+
+    K = Prefix.KILO
+    x = mk("1", K)
+    for what, f, ok in (
+        ("Prefixed(number=1, prefx=KILO)", lambda: Prefixed(number=Decimal(1), prefx=K), lambda r: mpref.exact(r) == 1000),
+        ("(1*KILO).scale(6)", lambda: x.scale(6), lambda r: r.prefix == Prefix.MEGA),
+        ("(1*KILO).scale('MEGA')", lambda: x.scale("MEGA"), lambda r: r.prefix == Prefix.MEGA),
+        ("(1*KILO).scale(e(6))", lambda: x.scale(_e(6)), lambda r: r.prefix == Prefix.MEGA),
+        ("(1*KILO).scale(True)", lambda: x.scale(True), lambda r: r.prefix == Prefix.DECA),
+    ):
+        rec.count("probe.arguments")
+        try:
+            r = f()
+        except Exception:
+            continue  # refused: fine
+        if not ok(r):
+            rec.violation("argument-silently-ignored", f"{what} was accepted and returned {mpref._desc(r)}: the argument was ignored", case={"kind": "probe", "what": what})
+    # comparisons of finite numbers with huge exponents: in a child process of its own, WITHOUT the contracts (their oracle writes the
+    # exact value out as a fraction) and under a watchdog and an address-space limit (the defect was a MemoryError / minutes of work)
+    code = ("import sys, resource; resource.setrlimit(resource.RLIMIT_AS, (4 << 30, 4 << 30)); sys.path.insert(0, %r)\n"
+            "from hv import env; env.bootstrap()\n"
+            "from decimal import Decimal; from hdl21.prefix import Prefixed, Prefix\n"
+            "K = Prefix.KILO; x = Prefixed(number=Decimal(1), prefix=K); out = []\n"
+            "for text in ('1E+999999999999999', '-3E+99999999999', '1E+400000000'):\n"
+            "    big = Prefixed(number=Decimal(text), prefix=K); same = Prefixed(number=Decimal(text), prefix=K)\n"
+            "    for name, f, want in (('==', lambda: big == same, True), ('<', lambda: big < x, text[0] == '-'), ('>=', lambda: x >= big, text[0] == '-'), ('!=', lambda: big != x, True)):\n"
+            "        try:\n"
+            "            r = f(); out.append((text, name, 'ok' if bool(r) == want else 'wrong:%%r' %% (r,)))\n"
+            "        except BaseException as e:\n"
+            "            out.append((text, name, 'raised:' + type(e).__name__))\n"
+            "print('HUGE', out)\n") % str(env.VERIF)
+    rec.count("probe.huge-exponent")
+    try:
+        p = subprocess.run([env.PY, "-c", code], capture_output=True, text=True, timeout=120, env=env.child_env({env.GUARD: "0"}), cwd=str(env.VERIF))
+        line = [l for l in p.stdout.splitlines() if l.startswith("HUGE ")]
+        if not line:
+            rec.violation("cmp-raises:process-died", f"comparing finite numbers with huge exponents killed the process (exit {p.returncode}): {p.stderr[-160:]}",
+                          case={"kind": "probe", "what": "huge-exponent"})
+        else:
+            import ast
+
+            for text, name, res in ast.literal_eval(line[0][5:]):
+                if res != "ok":
+                    rec.violation("cmp-raises:" + res.split(":")[1] if res.startswith("raised") else "cmp-wrong:" + name,
+                                  f"({text}*KILO) {name} ...: comparison of finite numbers {res}", case={"kind": "probe", "what": text})
+    except subprocess.TimeoutExpired:
+        rec.violation("cmp-raises:timeout", "comparing finite numbers with huge exponents did not return within 120 s", case={"kind": "probe", "what": "huge-exponent"})
+
+
 def Prefix_UNIT():
     from hdl21.prefix import Prefix
 
@@ -262,6 +316,8 @@ def run(ctx, rec):
             for name, f in (("<", operator.lt), ("==", operator.eq), (">", operator.gt)):
                 call(rec, "cmp-raises", f"({da}) {name} {other!r}", c, lambda f=f, o=other: f(a, o))
                 call(rec, "cmp-raises", f"{other!r} {name} ({da})", c, lambda f=f, o=other: f(o, a))
+    if ctx.shard == 0:
+        argument_probes(rec)
     if not ctx.quick and ctx.shard == 0:
         from .. import suite
 
